@@ -202,3 +202,95 @@ def run(ob, tier):
     if ob["which"] == "recorded":
         return c07_atomic.run(dict(ob, mode="complete"), tier)
     return {"notify": notify, "notify_proxys": notify_proxys}[ob["which"]](ob, tier)
+
+
+# ---------------------------------------------------------------- worker applies what it is told / answers survive
+_run_c08 = run
+
+
+def add_cluster_knobs(ob, tier):
+    """Server::add_cluster (worker): every per-cluster setter of the BackendMap is called on
+    every path, i.e. the worker applies each knob of the AddCluster as given — also when the
+    message carries None for it (ConfigState::add_cluster replaces the whole cluster, so a
+    conditional setter makes the worker's behaviour drift from its own queryable view)."""
+    fn = mirrun.get_fn("lib", "::add_cluster", sig="&mut server::Server")
+    ex = engine.Executor(fn, loop_bound=lambda f, h: 1)
+    ev = ex.run()
+    q = Q(ex.ctx)
+    res = {"paths": ex.stats["nodes"], "functions": [fn.name]}
+    setters = [e for e in ev if e.kind == "call" and re.search(r"BackendMap::set_\w+$", e.callee)]
+    rets = [e for e in ev if e.kind == "return"]
+    src = open(mirrun.REPO + "/lib/src/server.rs").read()
+    i = src.index("fn add_cluster(")
+    want = len(re.findall(r"backends\s*\.\s*set_\w+\(|\.set_\w+\(", src[i:src.index("\n    }\n", i)]))
+    if len(rets) != 1 or not setters:
+        return dict(res, verdict="inconclusive", why="shape: setters=%d returns=%d" % (len(setters), len(rets)))
+    problems = []
+    for c in setters:
+        if q([rets[0].guard, engine.NOT(c.guard)])[0] != "unsat":
+            problems.append("%s is skipped on some path: the worker keeps the previous value of that knob while its state view shows the new one" % c.callee.split("::")[-1])
+    if len(setters) < 3:
+        problems.append("add_cluster applies fewer than three knobs (%d)" % len(setters))
+    wit = [q([rets[0].guard])[0]]
+    res["witness"] = "return reachable: %s; %d BackendMap setters" % (wit, len(setters))
+    res["witness_ok"] = all(w == "sat" for w in wit)
+    res["queries"], res["solver_s"] = q.n, round(q.secs, 2)
+    if problems:
+        return dict(res, verdict="counterexample", text="; ".join(problems), model={"problems": problems}, replay={"reproduced": False, "why": "no native replay"})
+    return dict(res, verdict="holds")
+
+
+def queue_discipline(ob, tier):
+    """Server::send_queue: a queued response leaves the queue only by being written: the queue
+    is only touched through pop_front / push_front, and a response whose write_message failed
+    is pushed back to the front; a bulk drain whose loop can exit early throws away every
+    response behind the one that did not fit (commands executed, never answered)."""
+    fn = mirrun.get_fn("lib", "send_queue::{closure#0}", sig="VecDeque<WorkerResponse>")
+    ex = engine.Executor(fn, loop_bound=lambda f, h: 1)
+    ev = ex.run()
+    for i, e in enumerate(ev):
+        e.seq = i
+    q = Q(ex.ctx)
+    res = {"paths": ex.stats["nodes"], "functions": [fn.name]}
+    dm = {d.dest for d in ev if d.kind == "call" and d.callee.endswith("DerefMut>::deref_mut") and "VecDeque<WorkerResponse>" in d.callee}
+    touch = [e for e in ev if e.kind == "call" and e.args and e.args[0]["text"].split()[-1] in dm]
+    writes = [e for e in ev if e.kind == "call" and e.callee.endswith("::write_message")]
+    if not touch or not writes:
+        return dict(res, verdict="inconclusive", why="shape: queue mutations=%d write_message calls=%d" % (len(touch), len(writes)))
+    problems = []
+    pops, pushes = [], []
+    for c in touch:
+        name = re.sub(r"::<.*?>(?=::|$)", "", c.callee).split("::")[-1]
+        if name == "pop_front":
+            pops.append(c)
+        elif name == "push_front":
+            pushes.append(c)
+        elif q([c.guard])[0] != "unsat":
+            problems.append("the response queue is emptied through VecDeque::%s: responses not yet written are dropped when the loop exits early" % name)
+    for w in writes:
+        it = [p for p in pushes if p.node[1] == w.node[1] and p.seq > w.seq]
+        failed = [e for e in ev if e.kind == "discr_read" and e.place == w.dest and e.node[1] == w.node[1] and e.seq > w.seq]
+        bad = engine.OR(*[engine.AND(f.guard, "(= %s %s)" % (f.term, engine.bv(1, 64))) for f in failed]) if failed else None
+        if bad is None:
+            problems.append("the result of write_message is not inspected")
+            continue
+        if q([bad, engine.NOT(engine.OR(*[p.guard for p in it]))])[0] != "unsat":
+            problems.append("a response whose write_message failed is not put back at the front of the queue")
+        for p in it:
+            if q([p.guard, engine.NOT(bad)])[0] != "unsat":
+                problems.append("a response is pushed back although it was written")
+    wit = [q([engine.OR(*[w.guard for w in writes])])[0]]
+    res["witness"] = "write_message reachable: %s; %d pops, %d push-backs" % (wit, len(pops), len(pushes))
+    res["witness_ok"] = all(w == "sat" for w in wit) and bool(pops)
+    res["queries"], res["solver_s"] = q.n, round(q.secs, 2)
+    if problems:
+        return dict(res, verdict="counterexample", text="; ".join(sorted(set(problems))), model={"problems": problems}, replay={"reproduced": False, "why": "no native replay"})
+    return dict(res, verdict="holds")
+
+
+def run(ob, tier):
+    if ob["which"] == "add_cluster_knobs":
+        return add_cluster_knobs(ob, tier)
+    if ob["which"] == "queue_discipline":
+        return queue_discipline(ob, tier)
+    return _run_c08(ob, tier)
